@@ -678,7 +678,8 @@ def run(ctx):
         ctx.sample({"meshes": b["names"], "routes": b["routes"], "calls": b["calls"], "violations": [(x[2], x[3], x[4]) for x in viol.get(b["t"], [])][:6]})
     ctx.assumptions += [
         "netCDF4 + xarray writer/reader of plain variables (the file E-record is read back with decode_cf=False)",
-        "positions are matched to source nodes with a chord tolerance of 1e-8",
+        "positions are matched to source nodes with a chord tolerance of 1e-9 (float32 sample files: 1e-6)",
+        "a direction with |z| > 1 - 1e-8 is the pole by the library's documented tolerance: pole distances in (0, 0.0081 deg] are not generated",
         "SCRIP cannot express a cell with fewer corners except by repeating one: consecutive equal corners are one corner",
         "abstract meshes of the model have 2-4 faces; real meshes come from the TLC-proved catalogue, 7 sample files and random planar patches",
     ]
